@@ -22,7 +22,7 @@ RULE = ("classes over the serializable fragment (20% with lossy kinds); document
         "(constructor applied to the documented lifting of the document) vs the real Deserializer; the driver reports for every case "
         "whether it lies inside the PROVED exact fragment; non-trivial = "
         "constraint or nesting; distinct by case hash; plus the extras stream (suites/extras.py) over DecimalNumber / Enum by value and "
-        "by name (plain, IntEnum, Flag, str-valued enums, falsy members) / date, time and formatted-string fields, bare and inside "
+        "by name (plain, IntEnum, Flag, str-valued enums, falsy members, an enum class with an ALIAS, an Enum restricted to some members) / date, time and formatted-string fields, bare and inside "
         "Optional/Array/Deque/Set/Map/Tuple/nested collections/Optional[Union[X, int]], at top level and one class level down, "
         "also in classes with _enable_undefined_value: the JSON image of valid instances (written down "
         "independently of the Serializer) and the image with one leaf replaced by each of 36 values (wrong JSON types, ill-formatted "
